@@ -167,6 +167,8 @@ def run(ctx):
         ctx.finding("proof:C04", dict(kind="proof", failed=po["failed"], log=po.get("build_log_tail", "")),
                     "property theorems of C04 no longer check: %s" % "; ".join(po["failed"])[:400], no_input=not found)
     dfs = summary.get("dfs", [])
+    # the thorough tier also runs 5-thread scenarios (main + 4 children): built-in DFS ones and random ones
+    nthreads = "1-4" if ctx.tier == "quick" else "1-5"
     cov = dict(obligations=po["obligations"], discharged=po["discharged"], checker_cmd=po["checker_cmd"],
                trusted_base=po["trusted_base"] + [
                    "hand-written model DoraModel/Stw/Model.lean tied to safepoint.rs/threads.rs by trace acceptance (below)",
@@ -179,12 +181,15 @@ def run(ctx):
                theorems=po["theorems"],
                evaluations=st["evaluations"],
                distinct_nontrivial=summary.get("nontrivial", 0),
-               rule="evaluation = one complete schedule of the real stop-the-world protocol with 1-4 managed threads "
+               rule="evaluation = one complete schedule of the real stop-the-world protocol with %s managed threads "
                     "under the scheduler (corpus, then DFS over choice lists up to the preemption bound per built-in "
                     "scenario, then VERIF_SEED-derived PCT/uniform random schedules over random scenarios); distinct = "
                     "distinct event trace; non-trivial = the trace contains a completed operation that stopped at least "
                     "one OTHER thread (fetch_or on its state byte) AND at least one slow path (a failed compare_exchange "
-                    "of park/unpark, or a wait on cv_wakeup)",
+                    "of park/unpark, or a wait on cv_wakeup)" % (
+                        nthreads + (" (5 = main + 4 children, thorough tier only: spawn tree / chain / fan-out, two "
+                                    "concurrent requesters, a non-last thread leaving a 5-entry list; see "
+                                    "histogram.traces_threads_5)" if ctx.tier != "quick" else "")),
                traces_validated_against_impl=accepted,
                distinct_traces=summary.get("distinct_traces", 0),
                states=mstats.get("states", 0), transitions=mstats.get("transitions", 0),
@@ -209,5 +214,5 @@ def run(ctx):
         "`tlab::make_iterable_current` in remove_current_thread does nothing here",
         "`DoraThread::stop()` / `join()` / `block()` and `Threads::join_all` are not exercised (C09); nobody waits on "
         "cv_join in the model",
-        "bounded: 1-4 threads, at most 4 ops per thread, preemption bound 1-3 for the exhaustive part; the theorems of "
-        "Props/C04.lean are about any number of threads and every interleaving of the model"])
+        "bounded: " + nthreads + " threads, at most 4 ops per thread, preemption bound 1-3 for the exhaustive part; "
+        "the theorems of Props/C04.lean are about any number of threads and every interleaving of the model"])
